@@ -69,10 +69,18 @@ def leo_ops(tier, rng, seen):
         extra16 += [(d, p) for d in range(1, 13) for p in range(1, 13)] + [(1000, 64), (2000, 30), (40, 1000), (65000, 2), (3, 400)]
     for (d, p) in [(1, 1), (2, 2), (3, 2), (5, 3), (8, 8), (10, 4), (257, 3), (300, 40), (254, 2), (2, 254), (1, 300)] + extra16:
         ops.append((f"gen leo16 {d} {p}", {"cat": "leo16", "fam": "leo16", "d": d, "p": p}))
+    # the premise of the general Leopard theorems (C04_leo8/16_encode_all: the MODEL's tables carry the LCH code for every
+    # configuration) is that the running package holds the model's tables: every entry of log / exp / skew, both fields
+    for t in ["log", "exp", "skew"]:
+        ops.append((f"tab leo8 {t} 0", {"cat": "tables-leo8", "fam": "tab", "d": 2, "p": 2}))
+        for blk in range(256):
+            ops.append((f"tab leo16 {t} {blk}", {"cat": "tables-leo16", "fam": "tab", "d": 2, "p": 2}))
     return ops
 
 
 def flag_check(line, meta, flags):
+    if meta.get("fam") == "tab":
+        return None
     if meta.get("fam") == "leo16":
         # GF(2^16): the proved certificate (C01_leo16_cert over the proved field GF65536) where the generator is small
         # enough to run it ('-' above 400,000 entries), and the Lagrange closed form (l0)
@@ -98,6 +106,20 @@ def execute(ops, ctx):
     final = []
     for mm in res["mismatches"]:
         f = mm["ops"][0].split()
+        if f[0] == "tab":
+            # a Leopard table of the package differs from the model's: the general theorems no longer speak about this
+            # code; look for a configuration that lost the MDS property through the public API
+            mm["kind"] = "leopard-table-differs"
+            fam = f[1]
+            for (d, p) in ([(254, 2), (253, 2), (252, 4), (128, 128), (200, 50)] if fam == "leo8" else [(65532, 4), (65534, 2), (65528, 8)]):
+                s = C.run_ops(ctx["harness"], [f"mdssearch {fam} {d} {p} {2000 if ctx['tier']=='quick' else 50000}"], jobs=1)[0]
+                if s and s.startswith("unrecoverable"):
+                    mm["kind"] = "unrecoverable-loss"
+                    mm["ops"] = [f"mdssearch {fam} {d} {p} 2000"]
+                    mm["why"] = s
+                    break
+            final.append(mm)
+            continue
         fam, d, p = f[1], int(f[2]), int(f[3])
         s = C.run_ops(ctx["harness"], [f"mdssearch {fam} {d} {p} {2000 if ctx['tier']=='quick' else 50000}"], jobs=1)[0]
         if s and s.startswith("unrecoverable"):
